@@ -204,8 +204,9 @@ func c07WorldProto(profs []*c07Profile, up dnsserver.Handler, cacheOn bool, prot
 		panic(err)
 	}
 
-	// Rewritten requests already handed out by this stack's filter: as the
-	// real filters' result caches do, the stub gives later requesters of the
+	// Rewritten requests already handed out by this stack's filter: as a
+	// filter with a result cache may (the hash-prefix filters did so until
+	// 18748ec), the stub gives later requesters of the
 	// same rewrite a copy with an ID of its own.
 	var rwMu sync.Mutex
 	rwSeen := map[string]uint16{}
